@@ -155,18 +155,36 @@ def _arms(e: ast.expr) -> list[ast.expr]:
     return [e]
 
 
+AUTO_FLOOR = 0.7  # share of the reviewed-tree instances of a property that must still be present
+
+
 def run_gates(prog: Program, report: Report, table: list, pid: str) -> None:
     n = 0
+    auto_total = auto_gone = 0
     for g in table:
         if pid not in g.props:
             continue
         if g.rule not in report.rules:
             report.rules.append(g.rule)
         try:
+            if g.rule == "RG-auto":
+                auto_total += 1
             n += _run_one(prog, report, g)
         except AnalysisError as e:
+            if g.rule == "RG-auto" and ("found 0 time" in str(e) or "expected at most" in str(e)):
+                # an instance extracted from the reviewed tree is a universally quantified statement over
+                # the statements of that text: when the statement is gone (or there are now more of them
+                # than were reviewed) there is nothing to judge.  The hand table keeps the strict policy;
+                # here only a collapse of the instance count is an analysis error (no vacuous pass).
+                auto_gone += 1
+                report.note(f"reviewed-tree instance not judged: {e}")
+                continue
             report.errors.append(str(e))
     report.count("RG gate/pass/form obligations", n)
+    if auto_total:
+        report.count("RG-auto reviewed-tree instances present", auto_total - auto_gone)
+        if auto_total - auto_gone < AUTO_FLOOR * auto_total:
+            report.errors.append(f"RG-auto: only {auto_total - auto_gone} of {auto_total} reviewed-tree instances are still present (below {int(AUTO_FLOOR * 100)}%): the instance table needs maintenance")
 
 
 def _run_one(prog: Program, report: Report, g) -> int:
